@@ -23,6 +23,21 @@ type canettiTamper[E algebra.PrimeGroupElement[E, S], S algebra.PrimeFieldElemen
 	R2B func(sender sharing.ID, m *canetti.Round2Broadcast[E, S]) *canetti.Round2Broadcast[E, S]
 	R2U func(sender, rcpt sharing.ID, m *canetti.Round2P2P[E, S]) *canetti.Round2P2P[E, S]
 	R3B func(sender sharing.ID, m *canetti.Round3Broadcast[E, S]) *canetti.Round3Broadcast[E, S]
+	// Twin: the deviator commits in round 1 as prescribed, but sends in rounds 2 and 3 what a second
+	// instance of itself produces whose AltAt-th random draw is replaced by an independent one
+	// (everything else identical): a coordinated deviation across two rounds, e.g. opening another
+	// Schnorr commitment than the one committed to and proving with it.
+	Twin *canettiTwin
+}
+
+type canettiTwin struct {
+	ID    sharing.ID
+	AltAt int
+	// filled in by runCanetti
+	Used            bool
+	ADiffers        bool // the twin's opened Schnorr commitment differs from the original's
+	OthersIdentical bool // … and X, rho and the commitment witness coincide
+	Calls           int  // consumptions of the original party's stream in round 1
 }
 
 // runCanetti executes the real Canetti DKG round by round (every party builds its own policy
@@ -47,6 +62,32 @@ func runCanetti[E algebra.PrimeGroupElement[E, S], S algebra.PrimeFieldElement[S
 		}
 		parts[id] = p
 	}
+	var twin *canetti.Participant[E, S]
+	if tamper != nil && tamper.Twin != nil {
+		se, isSym := any(env).(*SymEnv)
+		if !isSym {
+			return nil, fmt.Errorf("twin deviations need the symbolic environment")
+		}
+		tctxs, err := makeContexts(tag, ids)
+		if err != nil {
+			return nil, err
+		}
+		for i, id := range ids {
+			if id != tamper.Twin.ID {
+				continue
+			}
+			as, err := pol.Variant(i)
+			if err != nil {
+				return nil, err
+			}
+			twin, err = guarded(func() (*canetti.Participant[E, S], error) {
+				return canetti.NewParticipant(tctxs[id], as, group, se.R.ReaderTwin(fmt.Sprintf("%s/party%d", tag, id), tamper.Twin.AltAt))
+			})
+			if err != nil {
+				return nil, fmt.Errorf("NewParticipant(twin %d): %w", id, err)
+			}
+		}
+	}
 	res := &gennaroResult[E, S]{Shards: map[sharing.ID]*mpc.BaseShard[E, S]{}, Errs: map[sharing.ID]error{}, Round: map[sharing.ID]int{}}
 	r1b := map[sharing.ID]*canetti.Round1Broadcast[E, S]{}
 	for _, id := range ids {
@@ -60,6 +101,14 @@ func runCanetti[E algebra.PrimeGroupElement[E, S], S algebra.PrimeFieldElement[S
 			b = tamper.R1B(id, b)
 		}
 		r1b[id] = b
+		if twin != nil && id == tamper.Twin.ID {
+			if se, ok := any(env).(*SymEnv); ok {
+				tamper.Twin.Calls = se.R.Reader(fmt.Sprintf("%s/party%d", tag, id)).Calls()
+			}
+			if _, err := guarded(func() (*canetti.Round1Broadcast[E, S], error) { return twin.Round1() }); err != nil {
+				return nil, fmt.Errorf("twin round 1: %w", err)
+			}
+		}
 	}
 	r2b := map[sharing.ID]*canetti.Round2Broadcast[E, S]{}
 	r2u := map[sharing.ID]ds.Map[sharing.ID, *canetti.Round2P2P[E, S]]{}
@@ -78,6 +127,20 @@ func runCanetti[E algebra.PrimeGroupElement[E, S], S algebra.PrimeFieldElement[S
 			continue
 		}
 		b, u := o.b, o.u
+		if twin != nil && id == tamper.Twin.ID {
+			to, err := guarded(func() (out, error) {
+				b, u, err := twin.Round2(othersOf(id, r1b))
+				return out{b, u}, err
+			})
+			if err != nil {
+				return nil, fmt.Errorf("twin round 2: %w", err)
+			}
+			tw := tamper.Twin
+			tw.Used = true
+			tw.ADiffers = !to.b.Message.A.A.Equal(b.Message.A.A)
+			tw.OthersIdentical = to.b.Message.X.Equal(b.Message.X) && string(to.b.Message.Rho) == string(b.Message.Rho) && to.b.U == b.U
+			b, u = to.b, to.u
+		}
 		if tamper != nil && tamper.R2B != nil {
 			b = tamper.R2B(id, b)
 		}
@@ -107,6 +170,15 @@ func runCanetti[E algebra.PrimeGroupElement[E, S], S algebra.PrimeFieldElement[S
 		if err != nil {
 			res.Errs[id], res.Round[id] = err, 3
 			continue
+		}
+		if twin != nil && id == tamper.Twin.ID {
+			tb, err := guarded(func() (*canetti.Round3Broadcast[E, S], error) {
+				return twin.Round3(othersOf(id, r2b), unicastsTo(id, r2u))
+			})
+			if err != nil {
+				return nil, fmt.Errorf("twin round 3: %w", err)
+			}
+			b = tb
 		}
 		if tamper != nil && tamper.R3B != nil {
 			b = tamper.R3B(id, b)
@@ -283,10 +355,31 @@ func c04Canetti(env *SymEnv, pol Policy, fault canettiFault) {
 			return &canetti.Round3Broadcast[sG, sF]{Psi: &np}
 		}
 	}
-	res, err := runCanetti[sG, sF](env, tag, pol, pol.IDs, tamper)
-	if err != nil {
-		env.Reach("refused")
-		return
+	var res *gennaroResult[sG, sF]
+	var err error
+	if fault.Kind == "r2r3-reopens-with-another-proof-commitment" {
+		// find the draw that is the proof nonce: the twin's opened message must differ from the
+		// original's in the Schnorr commitment and in nothing else
+		for idx := 0; idx < 24 && !applied; idx++ {
+			tamper.Twin = &canettiTwin{ID: fault.Deviator, AltAt: idx}
+			res, err = runCanetti[sG, sF](env, fmt.Sprintf("%s/draw%d", tag, idx), pol, pol.IDs, tamper)
+			if err != nil {
+				env.Reach("refused: " + trunc(err.Error(), 80))
+				return
+			}
+			tw := tamper.Twin
+			applied = tw.Used && tw.ADiffers && tw.OthersIdentical
+			if idx >= tw.Calls && !applied {
+				break
+			}
+		}
+		env.Check(pfx+"/harness: the deviator's proof nonce was located among its round-1 draws", applied, "no single draw changes exactly the Schnorr commitment")
+	} else {
+		res, err = runCanetti[sG, sF](env, tag, pol, pol.IDs, tamper)
+		if err != nil {
+			env.Reach("refused")
+			return
+		}
 	}
 	if !applied {
 		env.Reach("fault-not-applicable")
@@ -355,7 +448,7 @@ func c04CanettiCases(tier string) []Case {
 		for _, dev := range devs {
 			var faults []canettiFault
 			faults = append(faults, canettiFault{"r1b-commitment-bit", dev, 0, 3}, canettiFault{"r2b-rho-bit", dev, 0, 5}, canettiFault{"r2b-witness-bit", dev, 0, 7},
-				canettiFault{"r3b-response", dev, 0, 0}, canettiFault{"r3b-commitment", dev, 0, 0})
+				canettiFault{"r3b-response", dev, 0, 0}, canettiFault{"r3b-commitment", dev, 0, 0}, canettiFault{"r2r3-reopens-with-another-proof-commitment", dev, 0, 0})
 			for idx := 0; idx < 2; idx++ {
 				faults = append(faults, canettiFault{"r2b-x-entry", dev, 0, idx})
 			}
